@@ -175,9 +175,9 @@ class ElementProxy(Sequence):
                     element = self.traversal_list[0]
                 except IndexError:
                     element = self.element_list.create_element(self.element_name, traversal_parent=True)
+            setattr(element, name, value)
             if name == 'value':
                 element.set_parent_to_traversal()
-            setattr(element, name, value)
 
     def __setitem__(self, index, value):
         self.element_list.set(self.element_name, value, index)
